@@ -163,6 +163,22 @@ def run_property(pid, tier, seed, logdir):
             except (Unsupported, Unwind) as e:
                 obligations.append(dict(name=name, engine="mirsym", functions=[], bounds="", oracle="", stubs=[], tier=tier,
                                         verdict="inconclusive", reason=f"outside the encoder's subset: {e}", queries=0, solver_time_s=0, failed=[]))
+        # the async wrapper (lifted): key construction, class gate, insert condition
+        from mirsym import props_lifted
+        t0 = time.time()
+        try:
+            failed, ex, npaths, kinds = props_lifted.cache_wrapper_obligation(prog, en, structs)
+            for f in failed:
+                f["check"] = "c06_cache_wrapper_key_and_gate"
+            obligations.append(dict(name="c06_cache_wrapper_key_and_gate", engine="mirsym", functions=sorted(f.split("::")[-1] for f in ex.encoded_fns),
+                                    bounds="CacheHandler::handle_query (async body lifted verbatim) for every query: name identity, type, class, DO, CD symbolic; cache lookup outcome hit/miss; upstream lifetime symbolic",
+                                    oracle="only class IN consults the cache; lookup and insert keys = (name, type, DO, CD) of the query; hit => upstream not asked; miss => asked once; stored only with positive lifetime",
+                                    stubs=["async body lifted verbatim (lib/lift.py)", "get_entry / calculate_expiry / insert_cache_entry / next handler / locks = summaries (decided separately by c06_cache_lookup_*)"] + sorted(ex.used_summaries),
+                                    tier=tier, verdict="fail" if failed else "pass", reason="", queries=ex.queries, solver_time_s=round(ex.solver_time, 2),
+                                    failed=_dedup(failed), paths=npaths, path_kinds=kinds, wall_s=round(time.time() - t0, 1)))
+        except (Unsupported, Unwind) as e:
+            obligations.append(dict(name="c06_cache_wrapper_key_and_gate", engine="mirsym", functions=[], bounds="", oracle="", stubs=[], tier=tier,
+                                    verdict="inconclusive", reason=f"outside the encoder's subset: {e}", queries=0, solver_time_s=0, failed=[]))
         return obligations
     if pid in ("C04", "C14", "C05"):
         from mirsym import props_dns, enums as _en
